@@ -2353,6 +2353,9 @@ def rule_reuse(prog):
     n_seq = 0
     for fb in pfiles_:
         pids_ = [q_["id"] if q_.get("k") == "Binding" else None for q_ in fb["params"]]
+        # (the list combinators look at the error themselves: they are where an `Affected` error is acted on)
+        handles_affected = any(v.endswith("ParserErrorKind::Affected") for m_ in hir.nodes(fb["body"]) if m_.get("k") in ("Match", "LetExpr")
+                               for pt_ in ([a_["pat"] for a_ in m_["arms"]] if m_.get("k") == "Match" else [m_["pat"]]) for v in hir.pat_variants_all(pt_))
         for x, parents in hir.walk(fb["body"]):
             if x.get("k") != "Call" or not x.get("args") or not ((hir.path_def(x["f"]) or {}).get("p") or "").endswith("parser::Parser::parse"):
                 continue
@@ -2368,6 +2371,12 @@ def rule_reuse(prog):
                         els_ = hir.strip(els_[0])["es"]
                     pos_ = next((j_ for j_, e_ in enumerate(els_) if any(y is x for y in hir.nodes(e_))), None)
                     if pos_ is not None and pos_ < len(els_) - 1:
+                        later = True
+                # ... or of a sequence that is written out: `let (rest, e) = Expression::parse(old, input)?; let (rest, _) = peek(..)(rest)?;`
+                if p_.get("k") == "Block" and any(q_.get("k") == "Try" for q_ in chain[i_ + 1:-1]) and not handles_affected:
+                    kids_ = list(p_["stmts"]) + ([p_["expr"]] if p_.get("expr") else [])
+                    pos_ = next((j_ for j_, st_ in enumerate(kids_) if any(y is x for y in hir.nodes(st_))), None)
+                    if pos_ is not None and any(y.get("k") == "Try" for st_ in kids_[pos_ + 1:] for y in hir.nodes(st_)):
                         later = True
             if not later:
                 continue
